@@ -35,7 +35,8 @@ SITUATIONS = ["constructed", "1.0", "1.1", "1.2"]
 CLASS_FLOORS = {"refused-add": 20, "accepted-add": 50, "collision-same-cell": 5, "collision-other-cell": 5,
                 "equal-checksums-duplicate-accepted": 5, "doc-1.0-collision": 5, "doc-1.1-collision": 5, "doc-1.2-collision": 5,
                 "doc-1.1-clean": 5, "doc-1.2-clean": 5, "situation-constructed": 10, "situation-1.0": 10, "situation-1.1": 10,
-                "situation-1.2": 10, "same-object-readded": 5}
+                "situation-1.2": 10, "same-object-readded": 5, "load-then-add-1.0": 5, "load-then-add-1.1": 5,
+                "load-then-add-1.2": 5}
 for a in domains.IDENTITY_ATTRS:
     CLASS_FLOORS["one-attr-differs-%s-accepted" % a] = 5
 
@@ -337,6 +338,66 @@ def check_document(ctx, pm, Dc):
     return collide
 
 
+def check_load_then_add(ctx, pm, Dc, extra_ops):
+    """A manifest produced by a LOADED file and then by further adds: after the load the manifest is at the current
+    version, so every further add is gated; the model starts from the loaded placement."""
+    pool, placement, version = Dc["pool"], Dc["placement"], Dc["version"]
+    doc = render_doc(pool, placement, version)
+    try:
+        im = pm.Images()
+        im.loads(json.dumps(doc))
+    except Exception:
+        return False
+    # map loaded images back to pool entries by path
+    model = Model(pool, True)
+    by_path = dict((p["attrs"]["path"], i) for i, p in enumerate(pool))
+    objs = {}
+    for v, arches in im.images.items():
+        for a, cell in arches.items():
+            for o in cell:
+                j = by_path.get(o.path)
+                if j is None:
+                    return False
+                model.cells.setdefault((v, a), set()).add(j)
+                objs.setdefault(j, o)
+    loaded_collisions = bool(model.colliding_pairs())
+    ctx.count("load-then-add-%s" % version)
+    for step, (variant, arch, idx) in enumerate(extra_ops):
+        if idx not in objs:
+            objs[idx] = F.make_image(pm, im, pool[idx]["attrs"])
+        verdict, hit = model.add(variant, arch, idx)
+        before = dict((k, set(x.path for x in c)) for k, c in ((k2, im.images[k2[0]][k2[1]]) for k2 in
+                                                                [(v, a) for v in im.images for a in im.images[v]]))
+        try:
+            im.add(variant, arch, objs[idx])
+            got = "accept"
+        except ValueError:
+            got = "refuse"
+        except Exception as e:
+            got = "refuse-other:%s" % type(e).__name__
+        after = dict((k, set(x.path for x in c)) for k, c in ((k2, im.images[k2[0]][k2[1]]) for k2 in
+                                                               [(v, a) for v in im.images for a in im.images[v]]))
+        case = dict(Dc, extra_ops=extra_ops[:step + 1])
+        if not loaded_collisions:
+            bad = got != verdict
+            ctx.monitor("add-outcome-after-load", fired=bad)
+            if bad:
+                ctx.violation("add-outcome-after-load", "whatever sequence of loaded file and add calls produced the manifest, an add that would "
+                              "create a colliding pair raises ValueError and any other add is accepted", case, observed=got,
+                              expected="%s%s" % (verdict, " (collides with %s)" % pool[hit[1]]["tag"] if hit else ""))
+                return True
+        if got != "accept":
+            bad = after != before
+            ctx.monitor("state-after-call", fired=bad)
+            if bad:
+                ctx.violation("state-after-call", "a refused add leaves the manifest as it was", case, observed="changed", expected="unchanged")
+            if verdict == "accept":
+                model.cells[(variant, arch)].discard(idx)
+        elif verdict == "refuse":
+            model.cells.setdefault((variant, arch), set()).add(idx)
+    return True
+
+
 def check_identify(ctx, pm, pool):
     for p in pool:
         a = p["attrs"]
@@ -405,6 +466,13 @@ def run_shard(ctx):
             placement.append([cell[0], cell[1], j])
         for version in ("1.0", "1.1", "1.2"):
             Dc = {"pool": pool, "placement": placement, "version": version}
+            if i % 2 == 0:
+                extra = [[rng.choice(variants), rng.choice(arches), rng.randrange(len(pool))] for _ in range(rng.randint(2, 8))]
+                rival = {0: 2, 9: 11, 12: 13}
+                for (v0, a0, j0) in placement:
+                    if j0 in rival:
+                        extra.insert(rng.randrange(len(extra) + 1), [rng.choice(variants), rng.choice(arches), rival[j0]])
+                check_load_then_add(ctx, pm, Dc, extra)
             collide = check_document(ctx, pm, Dc)
             ctx.case_done({"doc": placement, "v": version, "p": pool[0]["attrs"]["checksums"]}, nontrivial=collide or len(idxs) > 1)
         if i == 1:
@@ -413,7 +481,9 @@ def run_shard(ctx):
 
 def replay(ctx, case):
     pm = _pm()
-    if "placement" in case:
+    if "extra_ops" in case:
+        check_load_then_add(ctx, pm, case, case["extra_ops"])
+    elif "placement" in case:
         check_document(ctx, pm, case)
     elif "attrs" in case:
         check_identify(ctx, pm, [{"attrs": case["attrs"], "tag": "replay"}])
